@@ -18,6 +18,9 @@ class IsEnum(Validator):
                 value = value.upper()
 
             if issubclass(self._enum, IntEnum):
+                if isinstance(value, float) and not value.is_integer():
+                    raise ValueError(value)  # 1.5 is not the member 1; inf and nan are no members either
+
                 enum_value = self._enum(int(value))
             else:
                 enum_value = self._enum(value)
